@@ -220,3 +220,356 @@ def c19(tier, seed):
 
 
 CHECKS[19] = c19
+
+
+# ===================================================================================================
+# container harness (C13, C20, C10 layer 2)
+
+CONT_SRC = os.path.join(vc.HARNESS, "containers", "containers.cpp")
+BOUNDARY_CAPS = [1, 2, 3, 7, 8, 9, 15, 16, 17, 31, 32, 33, 63, 64, 65, 127, 128, 129, 254, 255]
+FULL_SHARDS = [(1 + 16 * i, min(255, 16 * (i + 1))) for i in range(16)]
+BOUNDARY_SHARDS = [(1, 3), (7, 9), (15, 17), (31, 33), (63, 65), (127, 129), (254, 255)]
+
+
+def container_binaries(variant, tool, shards):
+    """returns (ok, [(lo, hi, exe)], log)"""
+    pr = vc.probes(variant)
+    pflags = ["-DVF_STATIC_ITER"] if pr.get("static_iter", {}).get("ok") else []
+    if tool == "gcc":
+        cxx = ["g++", "-std=gnu++17", "-O1", "-g0", "-w"]
+        link = ["-lrapidcheck"]
+    else:
+        cxx = ["clang++", "-std=gnu++17", "-O1", "-g", "-w", "-fsanitize=address,undefined", "-fno-sanitize-recover=undefined"]
+        link = ["-lrapidcheck"]
+    key = vc.sha(vc.repo_hash(), vc.hash_files([CONT_SRC]), " ".join(cxx + pflags), variant)
+    d = os.path.join(vc.build_root(), "cont-%s-%s-%s" % (variant, tool, key[:10]))
+    res, cmds, todo = [], [], []
+    with vc.Lock(d + ".lock"):
+        os.makedirs(d, exist_ok=True)
+        for lo, hi in shards:
+            exe = os.path.join(d, "cont-%d-%d" % (lo, hi))
+            res.append((lo, hi, exe))
+            if not os.path.exists(exe):
+                todo.append(exe)
+                cmds.append(cxx + vc.variant_flags(variant) + pflags + ["-DVF_CLO=%d" % lo, "-DVF_CHI=%d" % hi, CONT_SRC, "-o", exe + ".tmp"] + link)
+        outs = vc.parallel(cmds)
+        for exe, (rc, out) in zip(todo, outs):
+            if rc != 0:
+                log = os.path.join(d, "FAILED.log")
+                open(log, "w").write(out[-6000:])
+                return False, res, log
+            os.rename(exe + ".tmp", exe)
+    return True, res, ""
+
+
+def run_containers(R, P, what_list, tier, seed, budget):
+    """runs the container properties `what_list` on all capacities (plain) and the boundary capacities (sanitized)"""
+    od = vc.out_dir(P)
+    total, nontriv = 0, 0
+    caps_seen = set()
+    # regression replays (saved shrunk sequences)
+    reg = sorted(glob.glob(os.path.join(vc.REGRESS, P, "*.seq")))
+    nreg = 0
+    for variant in ("shipped", "dev"):
+        if not reg:
+            break
+        ok, bins, log = container_binaries(variant, "gcc", FULL_SHARDS)
+        if not ok:
+            print("INCONCLUSIVE: container harness does not build (%s): %s" % (variant, log))
+            return 2
+        for f in reg:
+            what = os.path.basename(f).split("-")[0]
+            if what not in what_list:
+                continue
+            cap = open(f, "rb").read(1)[0]
+            for lo, hi, exe in bins:
+                if lo <= cap <= hi:
+                    rc, out = vc.run([exe, "replay", what, f], timeout=60)
+                    nreg += 1
+                    if rc == 1:
+                        R.violation(f, "regression sequence reproduces (%s header): %s" % (variant, out.strip()[-400:]))
+    R.coverage["regression_cases_replayed"] = R.coverage.get("regression_cases_replayed", 0) + nreg
+    for variant in ("shipped", "dev"):
+        plans = [("gcc", FULL_SHARDS, budget)]
+        plans.append(("san", FULL_SHARDS if tier == "thorough" else BOUNDARY_SHARDS, max(2000, budget // 8)))
+        for tool, shards, cases in plans:
+            ok, bins, log = container_binaries(variant, tool, shards)
+            if not ok:
+                print("INCONCLUSIVE: container harness does not build (%s/%s): %s" % (variant, tool, log))
+                try:
+                    print(open(log).read()[-2500:])
+                except OSError:
+                    pass
+                return 2
+            env = {"ASAN_OPTIONS": "detect_leaks=0", "UBSAN_OPTIONS": "print_stacktrace=1:halt_on_error=1"}
+            cmds, metas = [], []
+            per = max(300, cases // (len(bins) * len(what_list)))
+            for what in what_list:
+                for (lo, hi, exe) in bins:
+                    sp = os.path.join(od, "cstats-%s-%s-%s-%d.json" % (variant, tool, what, lo))
+                    try:
+                        os.remove(sp)
+                    except OSError:
+                        pass
+                    tag = "%s-%s-%d-%d-s%d" % (variant, tool, lo, hi, seed)
+                    cmds.append(["env", "RC_PARAMS=seed=%d max_success=%d max_size=%d" % (seed * 977 + lo * 7 + len(what), per, 60 if tier == "quick" else 120), exe, what, "--stats", sp, "--out", od, "--tag", tag])
+                    metas.append((what, lo, hi, exe, sp))
+            outs = vc.parallel(cmds, env=env)
+            for (what, lo, hi, exe, sp), (rc, out) in zip(metas, outs):
+                try:
+                    st = json.load(open(sp))
+                except (OSError, ValueError):
+                    st = None
+                if st:
+                    total += st.get("evaluations", 0)
+                    nontriv += st.get("distinct_nontrivial", 0)
+                    caps_seen.update(int(k) for k in st.get("caps", {}))
+                    for smp in st.get("samples", [])[:1]:
+                        if len(R.coverage["samples"]) < 4:
+                            R.coverage["samples"].append(smp)
+                    if st.get("failed") and st.get("replay"):
+                        # confirm 3/3 through the stand-alone replayer
+                        good = True
+                        for _ in range(3):
+                            rc2, o2 = vc.run([exe, "replay", what, st["replay"]], env=env, timeout=60)
+                            if rc2 != 1:
+                                good = False
+                        if good:
+                            R.violation(st["replay"], "%s  [%s, %s header, %s build, capacities %d..%d; shrunk by rapidcheck, reproduced 3/3; replay with: %s replay %s %s]" % (st.get("message", ""), what, variant, tool, lo, hi, exe, what, st["replay"]))
+                        else:
+                            R.inconclusive.append("container failure did not reproduce: " + st["replay"])
+                elif rc != 0:
+                    p = os.path.join(od, "crash-%s-%s-%s-%d.log" % (variant, tool, what, lo))
+                    open(p, "w").write(out[-6000:])
+                    R.violation(p, "container harness %s crashed or reported a sanitizer error (%s header, %s build, capacities %d..%d): %s" % (what, variant, tool, lo, hi, vp.first_report_line(out)))
+    R.coverage["evaluations"] += total
+    R.coverage["distinct_nontrivial"] += nontriv
+    R.coverage["engines"]["containers:" + "+".join(what_list)] = {"evaluations": total, "distinct_nontrivial": nontriv, "capacities_exercised": len(caps_seen), "all_capacities_1_to_255": len(caps_seen) == 255}
+    return 0
+
+
+def bitwidth_check(R, tier, seed):
+    od = vc.out_dir("C13")
+    src = os.path.join(vc.HARNESS, "containers", "bitwidth.cpp")
+    rng = random.Random(seed)
+    total = 0
+    for variant in ("shipped", "dev"):
+        d = os.path.join(vc.build_root(), "bitwidth-%s-%s" % (variant, vc.sha(vc.repo_hash(), vc.hash_files([src]))[:10]))
+        exe = os.path.join(d, "bitwidth")
+        with vc.Lock(d + ".lock"):
+            if not os.path.exists(exe):
+                os.makedirs(d, exist_ok=True)
+                rc, out = vc.run(["g++", "-std=gnu++17", "-O2", "-w"] + vc.variant_flags(variant) + [src, "-o", exe])
+                if rc != 0:
+                    print("INCONCLUSIVE: bitwidth harness does not build:", out[-2000:])
+                    return 2
+        if tier == "thorough":
+            step = (1 << 32) // vc.NCPU
+            cmds = [[exe, "range", str(i * step), str((1 << 32) if i == vc.NCPU - 1 else (i + 1) * step)] for i in range(vc.NCPU)]
+        else:
+            vals = [0]
+            for k in range(32):
+                vals += [max(0, (1 << k) - 1), 1 << k, (1 << k) + 1]
+            vals += [(1 << 32) - 1, (1 << 32) - 2]
+            vals += [rng.randrange(0, 1 << 32) for _ in range(200000)]
+            lst = os.path.join(od, "bitwidth-%s.txt" % variant)
+            open(lst, "w").write("\n".join(str(v) for v in vals))
+            cmds = [[exe, "list", lst], [exe, "range", "0", str(1 << 22)]]
+        outs = vc.parallel(cmds)
+        for c, (rc, out) in zip(cmds, outs):
+            for l in out.splitlines():
+                if l.startswith("checked"):
+                    total += int(l.split()[1])
+            if rc != 0:
+                p = os.path.join(od, "bitwidth-%s.log" % variant)
+                open(p, "w").write(" ".join(c) + "\n" + out)
+                R.violation(p, "bitWidth(): " + out.strip()[:300] + " (%s header)" % variant)
+    R.coverage["evaluations"] += total
+    R.coverage["engines"]["bitWidth"] = {"arguments_checked": total, "exhaustive_over_2^32": tier == "thorough"}
+    return 0
+
+
+def c13(tier, seed):
+    R = vp.Result("C13", tier, seed)
+    vc.fresh_dir(vc.out_dir("C13"))
+    rc = run_containers(R, "C13", ["stream"], tier, seed, 160000 if tier == "quick" else 3000000)
+    if rc == 2:
+        return 2
+    rc = bitwidth_check(R, tier, seed)
+    if rc == 2:
+        return 2
+    return R.finish("bit stream cases = (capacity 1..255 enumerated round-robin, start cursor, list of (width 1..32, value fitting the width; all-ones / single-bit / random)) generated by rapidcheck, checked after every write against a "
+                    "one-bool-per-bit model and read back; distinct = distinct (capacity, cursor, fields); non-trivial = a field that starts at a non-zero bit offset and straddles >= 2 byte boundaries. bitWidth: listed boundary values, 2^22 prefix and random 32-bit arguments (quick) / all 2^32 arguments (thorough)",
+                    extra={"exhaustive": False},
+                    assumptions=["stream contract: cursor + width <= capacity and the value fits its width (asserted preconditions)", "all capacities 1..255 and all widths 1..32 are instantiated through dispatch tables; plain build covers all capacities, the sanitized build the boundary capacities (quick) or all (thorough)"])
+
+
+def c20(tier, seed):
+    R = vp.Result("C20", tier, seed)
+    vc.fresh_dir(vc.out_dir("C20"))
+    for variant in ("shipped", "dev"):
+        pr = vc.probes(variant)
+        if "static_iter" in pr and not pr["static_iter"]["ok"]:
+            R.violation(pr["static_iter"]["log"], "StaticArrayT cannot be iterated: a program using only begin()/end() (range-based for) does not compile or visits the wrong elements (%s header); see log" % variant)
+    rc = run_containers(R, "C20", ["bitarray", "static", "dynamic"], tier, seed, 300000 if tier == "quick" else 5000000)
+    if rc == 2:
+        return 2
+    return R.finish("cases = (capacity 1..255 enumerated round-robin, operation sequence) generated by rapidcheck: BitArrayT vs a vector<bool> model (set/clear/get/set-all/clear-all/empty/and-assign, full comparison after every op, "
+                    "then every index cleared one by one), StaticArrayT vs std::vector (store/load/fill/clear/iterate/empty, element types uint32_t and Short), DynamicArrayT vs std::vector (emplace, +=, += array, [], clear, iteration); "
+                    "non-trivial = bit array: capacity not a multiple of 8 with set() followed by per-index clears; static: a fill/clear among >= 3 ops; dynamic: the array reached its capacity",
+                    assumptions=["indices < capacity / < count, emplace only below capacity (asserted preconditions)", "plain build: all capacities; sanitized build: boundary capacities (quick) or all (thorough)"])
+
+
+CHECKS[13] = c13
+CHECKS[20] = c20
+
+
+def c10_extra(R, tier, seed):
+    return run_containers(R, "C10", ["tasklist"], tier, seed, 120000 if tier == "quick" else 3000000)
+
+
+# ===================================================================================================
+# sizes harness (C14, C12 sweep)
+
+SIZES_SRC = os.path.join(vc.HARNESS, "sizes", "sizes.cpp")
+BOUNDARY_N = [1, 2, 3, 4, 5, 7, 8, 9, 15, 16, 17, 31, 32, 33, 63, 64, 65, 127, 128, 129, 254, 255]
+
+
+def sizes_plan(tier, seed):
+    """list of (N, head, variant)"""
+    rng = random.Random(seed * 31 + 5)
+    plan = []
+    if tier == "thorough":
+        for n in range(1, 256):
+            plan.append((n, n % 2, "shipped" if (n // 2) % 2 == 0 else "dev"))
+            if n in BOUNDARY_N:
+                plan.append((n, 1 - n % 2, "dev" if (n // 2) % 2 == 0 else "shipped"))
+    else:
+        for i, n in enumerate(BOUNDARY_N):
+            plan.append((n, n % 2, "shipped" if i % 2 == 0 else "dev"))
+        plan += [(1, 0, "dev"), (2, 1, "shipped"), (255, 0, "shipped"), (3, 0, "dev")]
+        for n in rng.sample([x for x in range(6, 120) if x not in BOUNDARY_N], 6):
+            plan.append((n, rng.randrange(2), rng.choice(["shipped", "dev"])))
+    return plan
+
+
+def sizes_binaries(plan):
+    key = vc.sha(vc.repo_hash(), vc.hash_files([SIZES_SRC]))
+    d = os.path.join(vc.build_root(), "sizes-" + key[:10])
+    res, cmds, todo = {}, [], []
+    with vc.Lock(d + ".lock"):
+        os.makedirs(d, exist_ok=True)
+        for (n, head, variant) in plan:
+            exe = os.path.join(d, "sz-%d-%d-%s" % (n, head, variant))
+            res[(n, head, variant)] = exe
+            if not os.path.exists(exe) and exe not in todo:
+                todo.append(exe)
+                cxx = ["clang++", "-std=gnu++17", "-O0", "-w"] if n > 64 else ["g++", "-std=gnu++17", "-O0", "-w"]
+                cmds.append(cxx + vc.variant_flags(variant) + ["-DVF_N=%d" % n, "-DVF_HEAD=%d" % head, SIZES_SRC, "-o", exe + ".tmp"])
+        # big machines need ~1.5 GB each while compiling: limit the parallelism for them
+        outs = vc.parallel(cmds, jobs=min(vc.NCPU, 12))
+        for exe, cmd, (rc, out) in zip(todo, cmds, outs):
+            if rc != 0:
+                log = exe + ".FAILED.log"
+                open(log, "w").write(" ".join(cmd) + "\n" + out[-6000:])
+                return False, res, log, out
+            os.rename(exe + ".tmp", exe)
+    return True, res, "", ""
+
+
+def gen_walk(n, seed, path):
+    rng = random.Random(seed * 100003 + n)
+    order = list(range(n))
+    rng.shuffle(order)
+    lines = []
+    for k in order:
+        lines.append("%s %d" % (rng.choice("iic"), k))
+        for _ in range(rng.randrange(0, 3)):
+            lines.append("%s %d" % (rng.choice("urqiicx"), rng.randrange(n)))
+    # make sure the boundary indices are hit directly from each other
+    for k in (0, n - 1, n // 2, 0, n - 1):
+        lines.append("i %d" % k)
+    open(path, "w").write("\n".join(lines) + "\n")
+    return len(lines)
+
+
+def c14(tier, seed):
+    R = vp.Result("C14", tier, seed)
+    od = vc.fresh_dir(vc.out_dir("C14"))
+    plan = sizes_plan(tier, seed)
+    ok, bins, log, out = sizes_binaries(plan)
+    if not ok:
+        if "static assertion failed" in out or "static_assert" in out:
+            p = os.path.join(od, "static-assert.log")
+            shutil.copy(log, p)
+            R.violation(p, "compile-time check failed: stateId<T>() is not the declaration position / head id not invalid: " + vp.first_report_line(out))
+            return R.finish("(compile-time)", extra={})
+        print("INCONCLUSIVE: sizes harness does not build:", log)
+        print(out[-2500:])
+        return 2
+    cmds, metas, steps_total = [], [], 0
+    for (n, head, variant) in plan:
+        wp = os.path.join(od, "walk-%d-%d-%s.txt" % (n, head, variant))
+        steps_total += gen_walk(n, seed, wp)
+        cmds.append([bins[(n, head, variant)], "walk", wp])
+        metas.append((n, head, variant, wp))
+    outs = vc.parallel(cmds)
+    visited = 0
+    for (n, head, variant, wp), (rc, out) in zip(metas, outs):
+        if rc != 0:
+            R.violation(wp, "N=%d head=%d (%s header): %s  [replay: %s walk %s]" % (n, head, variant, out.strip()[:400], bins[(n, head, variant)], wp))
+        else:
+            visited += n
+    R.coverage["evaluations"] = steps_total
+    R.coverage["distinct_nontrivial"] = visited
+    R.coverage["samples"] = ["N=%d head=%d header=%s walk (first 12 ops): %s" % (m[0], m[1], m[2], " ; ".join(open(m[3]).read().splitlines()[:12])) for m in metas[:3]]
+    R.coverage["engines"]["sizes_walks"] = {"machines": len(plan), "state_counts": sorted(set(p[0] for p in plan)), "walk_steps": steps_total, "(N,k)_pairs_visited": visited}
+    return R.finish("for each machine size N (thorough: every N in 1..255; quick: the boundary set %s plus seed-chosen extras), with and without a root head, both header variants alternating: compile-time stateId<St<I>>() == I for all I; "
+                    "a seed-generated walk visits every k < N (random order, interleaved update/react/query/re-entry/exit+enter) and after each step checks that only St<k> (and the state just left) ran callbacks, activeStateId()==k, "
+                    "isActive(i) for all i, and access<St<k>>() is the object whose callbacks ran; non-trivial = distinct (N, k) pairs visited" % BOUNDARY_N,
+                    extra={"exhaustive": tier == "thorough"},
+                    assumptions=["exhaustive in (N, k) for the sizes built; the walk order is generated from VERIF_SEED by the driver and saved as the replay file", "manual activation, SERIALIZATION+PLANS enabled in the sizes harness"])
+
+
+CHECKS[14] = c14
+
+
+def c12_extra(R, tier, seed):
+    od = vc.out_dir("C12")
+    plan = sizes_plan(tier, seed)
+    ok, bins, log, out = sizes_binaries(plan)
+    if not ok:
+        print("INCONCLUSIVE: sizes harness does not build:", log)
+        print(out[-2500:])
+        return 2
+    cmds = [[bins[p], "pairs"] for p in plan]
+    outs = vc.parallel(cmds)
+    pairs = 0
+    for p, (rc, out) in zip(plan, outs):
+        if rc != 0:
+            lp = os.path.join(od, "pairs-%d-%d-%s.log" % p)
+            open(lp, "w").write(out)
+            R.violation(lp, "save/load sweep N=%d head=%d (%s header): %s  [replay: %s pairs]" % (p[0], p[1], p[2], out.strip()[:400], bins[p]))
+        else:
+            for l in out.splitlines():
+                if l.startswith("pairs ok"):
+                    pairs += int(l.split("pairs=")[1].split()[0])
+    R.coverage["evaluations"] += pairs
+    R.coverage["distinct_nontrivial"] += pairs
+    R.coverage["engines"]["sizes_save_load_sweep"] = {"machines": len(plan), "state_counts": sorted(set(p[0] for p in plan)), "(saver,loader)_pairs": pairs, "exhaustive_in_(k,j)_per_N": True}
+    return 0
+
+
+def setup_extra():
+    ok = True
+    for variant in ("shipped", "dev"):
+        r, _, log = container_binaries(variant, "gcc", FULL_SHARDS)
+        ok = ok and r
+        r, _, log = container_binaries(variant, "san", BOUNDARY_SHARDS)
+        ok = ok and r
+    r, _, _, _ = sizes_binaries(sizes_plan("quick", vc.seed()))
+    vc.zoo_binary("MIN", "shipped", "gcc")
+    return ok and r
+
+
+SETUPS.append(setup_extra)
